@@ -206,9 +206,12 @@ class Cell:
         # fixme, once we shift to 3.11, replace this with super. __getstate__
         # the cached `neighborhood` (a cached_property: it lives in the instance dict) refers to the neighboring cells,
         # whose cached neighborhoods refer to theirs, and so on: like the connections it is left out and recomputed on demand
+        # the slots of the whole class hierarchy: `self.__slots__` alone is the list of the most derived class that
+        # declares slots, so a Cell subclass with slots of its own would lose coordinate, _agents, capacity, ...
+        slots = [s for klass in type(self).__mro__ for s in getattr(klass, "__slots__", ())]
         state = (
             {k: v for k, v in self.__dict__.items() if k != "neighborhood"},
-            {k: getattr(self, k) for k in self.__slots__ if k != "__dict__"},
+            {k: getattr(self, k) for k in slots if k != "__dict__" and hasattr(self, k)},
         )
         state[1][
             "connections"
